@@ -352,6 +352,90 @@ theorem dOpenMP_independent_of_run {σ : Type} (S : SieveOps σ) (e : Env) (c : 
   rw [dOpenMP_total S e c hc x y z k threads1 print1 F hF hthr es1 v1 h1,
       dOpenMP_total S e c hc x y z k threads2 print2 F hF hthr es2 v2 h2]
 
+/-! ### non-vacuity (tests, labelled as such): a concrete recorded run of two workers -/
+namespace Ex
+
+/-- an additive chunk function: interval length -/
+def lenF (c : Chunk) : Int := (c.2 : Int) - c.1
+
+/-- a thread function that computes it: `min(low + size * segs, limit) - low` -/
+def lenThr (limit low segs size : Nat) : Except Err Int := .ok (lenF (low, min (low + size * segs) limit))
+
+theorem lenF_additive : Additive lenF := by
+  intro a b c _ _; simp only [lenF]; omega
+
+/-- the per-chunk hypothesis `hthr` of `replay_total` is satisfiable -/
+theorem lenThr_spec (limit : Nat) : ∀ low segs size, GoodItem low segs size → low < limit →
+    lenThr limit low segs size = .ok (lenF (low, min (low + size * segs) limit)) := fun _ _ _ _ _ => rfl
+
+/-- `GoodItem` is inhabited by what the dispenser really hands out first (`low = 0`, 1 segment of 720) -/
+example : GoodItem 0 1 720 := ⟨by decide, by decide, by decide, by decide, by decide⟩
+
+/-- result of a replay as a Boolean check: it succeeded, is complete, and `get_sum()` is `v` -/
+def check (cfg : S2.Config) (r : Except Err S2.State) (v : Int) : Bool :=
+  match r with
+  | .ok s => completeB cfg s && s.sum == v
+  | .error _ => false
+
+theorem check_sound (cfg : S2.Config) (r : Except Err S2.State) (v : Int) (h : check cfg r v = true) :
+    ∃ s, r = .ok s ∧ completeB cfg s = true ∧ s.sum = v := by
+  unfold check at h
+  split at h
+  · rename_i s
+    simp only [Bool.and_eq_true, beq_iff_eq] at h
+    exact ⟨s, rfl, h.1, h.2⟩
+  · exact absurd h (by simp)
+
+/-- `LoadBalancerS2(x = 10^6, z = 3000, threads = 2, is_print = false)`: workers 0, 1 draw alternately; the chunks are
+    `[0,720) [720,1440) [1440,2160) [2160,3000)`, then both get `false`.  Fields:
+    `w tlow tsegs tsize tsum secs init | work olow osegs osize sumAfter`. -/
+def runA : List S2.Ev :=
+  [⟨0, 0, 0, 0, 0, 0, 0, true, 0, 1, 720, 0⟩,
+   ⟨1, 0, 0, 0, 0, 0, 0, true, 720, 1, 720, 0⟩,
+   ⟨0, 0, 1, 720, 720, 17, 4, true, 1440, 1, 720, 720⟩,
+   ⟨1, 720, 1, 720, 720, 23, 4, true, 2160, 1, 960, 1440⟩,
+   ⟨0, 1440, 1, 720, 720, 5, 4, false, 3120, 1, 1200, 2160⟩,
+   ⟨1, 2160, 1, 960, 840, 9, 4, false, 4320, 1, 1440, 3000⟩]
+
+/-- the same range, the workers come back in another order: chunks `[0,720) [720,1440) [1440,2400) [2400,3000)` -/
+def runB : List S2.Ev :=
+  [⟨0, 0, 0, 0, 0, 0, 0, true, 0, 1, 720, 0⟩,
+   ⟨1, 0, 0, 0, 0, 0, 0, true, 720, 1, 720, 0⟩,
+   ⟨1, 720, 1, 720, 720, 0, 0, true, 1440, 1, 960, 720⟩,
+   ⟨0, 0, 1, 720, 720, 0, 0, true, 2400, 1, 960, 1440⟩,
+   ⟨1, 1440, 1, 960, 960, 0, 0, false, 3360, 1, 1200, 2400⟩,
+   ⟨0, 2400, 1, 960, 600, 0, 0, false, 4560, 1, 1440, 3000⟩]
+
+/-- `replay` returns `.ok`, `completeB` is true and the sum is `3000 = lenF (0, 3000)` on both runs -/
+theorem runA_ok : check (S2.mkConfig genConsts 3000 2 false)
+    (replay (lenThr 3000) (S2.mkConfig genConsts 3000 2 false) (S2.init genConsts 1000000 3000 2 false) runA) 3000 = true := by
+  decide
+
+theorem runB_ok : check (S2.mkConfig genConsts 3000 2 false)
+    (replay (lenThr 3000) (S2.mkConfig genConsts 3000 2 false) (S2.init genConsts 1000000 3000 2 false) runB) 3000 = true := by
+  decide
+
+/-- the hypotheses of `replay_total` hold of a concrete run (and its conclusion is the computed 3000) -/
+example : ∃ s, replay (lenThr 3000) (S2.mkConfig genConsts 3000 2 false) (S2.init genConsts 1000000 3000 2 false) runA = .ok s ∧
+    completeB (S2.mkConfig genConsts 3000 2 false) s = true ∧ s.sum = lenF (0, 3000) := by
+  obtain ⟨s, h1, h2, _⟩ := check_sound _ _ _ runA_ok
+  exact ⟨s, h1, h2, replay_total (lenThr 3000) lenF lenF_additive genConsts genConsts_wf 1000000 3000 2 false
+    (lenThr_spec 3000) runA s h1 h2⟩
+
+/-- a worker that reports a wrong `thread.sum` (721 instead of 720) is rejected by `replay` -/
+example : check (S2.mkConfig genConsts 3000 2 false)
+    (replay (lenThr 3000) (S2.mkConfig genConsts 3000 2 false) (S2.init genConsts 1000000 3000 2 false)
+      [⟨0, 0, 0, 0, 0, 0, 0, true, 0, 1, 720, 0⟩, ⟨0, 0, 1, 720, 721, 0, 0, true, 720, 1, 720, 721⟩]) 721 = false := by
+  decide
+
+/-- an incomplete run (worker 1 never comes back with its last chunk) is not `completeB` -/
+example : check (S2.mkConfig genConsts 3000 2 false)
+    (replay (lenThr 3000) (S2.mkConfig genConsts 3000 2 false) (S2.init genConsts 1000000 3000 2 false)
+      (runA.take 5)) 2160 = false := by
+  decide
+
+end Ex
+
 end Pc.Hard
 
 #print axioms Pc.Hard.replay_ok_iff
